@@ -185,12 +185,24 @@ def stream_lcf(ctx, built=True, oracle=None, parts=("lcf", "extreme", "ecnt", "l
         seen_rows, used = [], set()
         zone = max(1, int(round(p0.low_threshold + p0.low_mean_gap * p0.layer_sd)) + R.randint(-2, 1))      # around the noisy mean
         nsteps = R.choice([3, 5, 7])
+        directed = kind[0] == "g" and dims >= 2 and kind[2] >= p0.low_threshold + 3 and p0.low_threshold >= 2 and R.random() < 0.5
+        if directed:
+            # noise off: suppressed iff some id column holds fewer than low_threshold entities. The first id column starts one entity short, the others are
+            # filled; then single rows arrive whose id is new in the first column and already seen (or null) in the last: each answer must follow the sets
+            p0 = _replace(p0, layer_sd=0.0); lt_ = p0.low_threshold
+            for _k in range(lt_ - 1):
+                row = [R.getrandbits(64) or 1 for _d in range(dims)]; seen_rows.append(row); live.add(np.array(row, dtype=U64))
+            for _k in range(2):
+                row = [seen_rows[0][0]] + [R.getrandbits(64) or 1 for _d in range(dims - 1)]; seen_rows.append(row); live.add(np.array(row, dtype=U64))
+            zone = 0
         for step in range(nsteps):
             for _k in range(zone if step == 0 else R.choice([1, 1, 1, 2])):
                 row = [R.choice([0] + [R.getrandbits(64) or 1]) if R.random() < 0.1 else (R.getrandbits(64) or 1) for _d in range(dims)]
+                if dims >= 2 and seen_rows and (directed or R.random() < 0.4):      # new in the earlier id columns, already seen (or null) in a later one
+                    d_ = R.randrange(1, dims); row[d_] = R.choice([0, R.choice(seen_rows)[d_]])
                 if kind[0] == "u" and row[0] in used: continue
                 used.add(row[0]); seen_rows.append(row); live.add(np.array(row, dtype=U64))
-            r_ = R.random()
+            r_ = 0.0 if directed else R.random()
             if r_ < 0.45: p = p0
             elif r_ < 0.7: p = _replace(p0, low_threshold=max(1, p0.low_threshold + R.choice([-2, -1, 1])))
             else:          # the same threshold asked about under another noise level / gap / salt: the answer is a function of all of them
